@@ -43,6 +43,8 @@ mod ttedge;
 mod cffsynth;
 #[path = "../c03_extra.rs"]
 mod extra;
+#[path = "../c03_movekern.rs"]
+mod movekern;
 
 extern "C" {
     fn FT_MulFix(a: c_long, b: c_long) -> c_long;
@@ -569,11 +571,13 @@ fn run(cfg: &Config, s: &mut Session) {
         Ok("ttedge") => return ttedge::run(cfg, s),
         Ok("cffsynth") => return cffsynth::run(cfg, s),
         Ok("extra") => return extra::run(cfg, s),
+        Ok("movekern") => return movekern::run(cfg, s),
         _ => {}
     }
     kernels(cfg, s);
     hypot_oracle(cfg, s);
     bytecode::run(cfg, s);
+    movekern::run(cfg, s);
     synth::run(cfg, s);
     ttfuzz::run(cfg, s);
     ttedge::run(cfg, s);
